@@ -24,7 +24,9 @@ RULE = ("Hypothesis-generated chains of 2..5 sites (site dimension 2..3), site H
         "under partial trace; norm = 1. Execution modes: (fresh-interpreter) sequential vs 'multithread' vs 'multiprocess' "
         "in a child interpreter that imports only oqupy; (schedules) a permuting executor runs the gates of every layer in "
         "generated completion orders, and for one even and one odd layer application of a 6-site chain in EVERY order "
-        "(3! x 2! = 12 schedules, exhaustive). Non-trivial: >=3 sites or a process tensor on a site; distinct = distinct JSON.")
+        "(3! x 2! = 12 schedules, exhaustive). (trotter-order) for generic non-commuting 3-4 site chains, which have no exact "
+        "answer at finite dt, the deviation from the dense propagator must shrink by about 2^order when dt is halved (ratio "
+        ">= 1.6 for order 1, >= 3 for order 2 over dt = 0.1, 0.05, 0.025). Non-trivial: >=3 sites or a process tensor on a site; distinct = distinct JSON.")
 TECHNIQUE = "Hypothesis property-based testing against dense reference propagation + differential execution modes + enumerated gate completion orders via a harness-owned executor"
 LEVEL_TEXT = ("Generated chains from three exactly solvable families are compared at every step with dense references; the "
               "parallel back-ends are run in a fresh interpreter and, through a harness-owned executor, under generated and "
@@ -291,8 +293,56 @@ def run_sched(case):
     return out
 
 
+# ---------------------------------------------------------------- Trotter order (convergence-rate relation)
+
+@st.composite
+def s_trotter(draw, tier):
+    n = draw(st.integers(3, 4))
+    ch = draw(chaingen.chain_spec("two-site", dims=(2,), N=4, allow_pt=False))
+    ch2 = draw(chaingen.chain_spec("two-site", dims=(2,), N=4, allow_pt=False))
+    chain = {"family": "generic", "dims": [2] * n, "sites": (ch["sites"] + ch2["sites"])[:n],
+             "nn": (ch["nn"] + ch2["nn"] + ch["nn"])[:n - 1], "pts": [None] * n, "rhos": (ch["rhos"] + ch2["rhos"])[:n]}
+    return {"chain": chain, "order": draw(st.sampled_from([1, 2, 2]))}
+
+
+def run_trotter(case):
+    """metamorphic relation for non-commuting chains (no exact answer at finite dt): halving dt must reduce the
+    deviation from the dense propagation by ~2 (order 1) or ~4 (order 2)."""
+    import oqupy
+    from scipy.linalg import expm
+    from vlib.refs import chain as RC
+    out = Outcome()
+    spec = case["chain"]
+    ds = spec["dims"]
+    n = len(ds)
+    chain = chaingen.build_chain(spec)
+    rhos = chaingen.initial_states(spec)
+    L = RC.full_liouvillian(ds, chaingen.site_liouvillians(spec), chaingen.nn_liouvillians(spec))
+    T = 0.4
+    exact = RC.vec_to_rho(expm(L * T) @ RC.product_vec(rhos), ds)
+    errs = []
+    for dt in (0.1, 0.05, 0.025):
+        N = int(round(T / dt))
+        teb = oqupy.PtTebd(oqupy.AugmentedMPS(rhos), chain, [None] * n,
+                           oqupy.PtTebdParameters(dt=dt, epsrel=1e-12, order=case["order"]), dynamics_sites=[tuple(range(n))])
+        r = teb.compute(N, progress_type="silent")
+        errs.append(float(np.abs(np.array(r["dynamics"][tuple(range(n))].states)[-1] - exact).max()))
+    out.nontrivial = errs[0] > 1e-6
+    out.label(f"order={case['order']}", f"sites={n}", "splitting-error-visible" if errs[0] > 1e-6 else "commuting-by-chance")
+    if errs[0] > 1e-6:
+        r1 = errs[0] / max(errs[1], 1e-300)
+        r2 = errs[1] / max(errs[2], 1e-300)
+        out.metric(f"order{case['order']}/ratio-min", -min(r1, r2))
+        need = 3.0 if case["order"] == 2 else 1.6
+        if errs[1] > 1e-9 and min(r1, r2) < need:
+            out.fail(f"trotter-order-{case['order']}-convergence", f"errors at dt=0.1,0.05,0.025: {errs[0]:.3e}, {errs[1]:.3e}, {errs[2]:.3e} "
+                     f"(ratios {r1:.2f}, {r2:.2f}; expected about {2 ** case['order']})")
+    return out
+
+
 def subs(tier):
     return [
+        Sub("trotter-order", run_trotter, strategy=s_trotter, budget={"quick": 64, "thorough": 600}),
         Sub("exact", run_exact, strategy=s_exact, budget={"quick": 240, "thorough": 2000}),
         Sub("fresh-interpreter", run_modes, strategy=s_modes, budget={"quick": 16, "thorough": 160}),
         Sub("all-orders", run_sched, cases=sched_cases, exhaustive=True, budget={"quick": 12, "thorough": 12}),
